@@ -27,7 +27,9 @@ func c03SharedSub(name, dir string) *engine.Sub {
 	return &engine.Sub{
 		Name: name,
 		Rule: "delegation policies that are overlapping slices of ONE array of three statements (every triple of the 8 statements) with spare capacity: a first check runs a two-link chain whose leaf carries base[:n] (n = 1, 2) and whose root carries one further statement (all 8), on each of the 8 argument maps; a second check then runs a one-link chain whose delegation carries base[:3], on each of the 8 argument maps, with both APIs: both verdicts must be the reference's for the statements the policies were built from, and every delegation must still print the policy it was built with; non-trivial = sequences in which the second verdict depends on a statement at index >= n",
-		Bound: func(t string) string { return fmt.Sprintf("512 statement triples x 2 prefix lengths x %d root statements x 8 x 8 argument maps x 2 APIs", tierN(t, 2, 8)) },
+		Bound: func(t string) string {
+			return fmt.Sprintf("512 statement triples x 2 prefix lengths x %d root statements x 8 x 8 argument maps x 2 APIs", tierN(t, 2, 8))
+		},
 		Setup: func(string) error { c03Init(); return nil },
 		Gen: func(tier string, emit func(any) bool) {
 			for a := 0; a < 8; a++ {
